@@ -97,7 +97,8 @@ def generate(R, tier, focus):
         mixed = (not with_region) and R.random() < 0.3
         cats.append({'events': gen_catalog14(R, region, mags, with_region, n_max, mixed=mixed), 'with_region': with_region,
                      'mixed': mixed,
-                     'catalog_id': R.choice((None, 0, 1, 7, 12345)), 'name': R.choice((None, 'cat', 'my catalog, v2'))})
+                     'catalog_id': R.choice((None, 0, 1, 7, 12345, 255, 65536, 2 ** 31, 2024063012, 2 ** 53 - 1)),
+                     'name': R.choice((None, 'cat', 'my catalog, v2'))})
     ops = []
     n_ops = R.randint(1, 10) if not thorough else R.randint(1, 25)
     for _ in range(n_ops):
